@@ -345,11 +345,28 @@ type vf2Line struct {
 func vf2Payload(k int) []byte {
 	// a distinguishable "IP packet": 20-byte header stub + number
 	// lengths 28..31: netlink pads attribute values to 4 octets - the padding is not part of the packet
-	b := make([]byte, 28+k%4)
-	b[0] = 0x45
-	for i := 0; i < 8; i++ {
-		b[20+i] = byte(uint64(k) >> (8 * (7 - i)))
+	n := 28 + k%4
+	switch {
+	case k%13 == 5:
+		n = 2030 + k%7 // around 2 KiB
+	case k%53 == 7:
+		n = 9000 + k%3 // a jumbo frame
+	case k%97 == 11:
+		n = 20 // a bare IPv4 header
 	}
+	b := make([]byte, n)
+	b[0] = 0x45
+	if n >= 28 {
+		for i := 0; i < 8; i++ {
+			b[20+i] = byte(uint64(k) >> (8 * (7 - i)))
+		}
+	} else {
+		// the number goes into identification / addresses of the header itself
+		for i := 0; i < 8; i++ {
+			b[12+i] = byte(uint64(k) >> (8 * (7 - i)))
+		}
+	}
+	b[n-1] ^= 0xa5 // the last octet is not zero: a lost tail shows
 	return b
 }
 
